@@ -705,6 +705,54 @@ func (sc *specCtx) evalCall(x *ast.CallExpr) Value {
 		return sc.sqn(b, k, m.k, true)
 	case "bytesOf":
 		return sc.bytesOf(x, sc.eval(x.Args[0]))
+	case "bnil":
+		return bnil()
+	case "bcat":
+		r := bnil()
+		for i := len(x.Args) - 1; i >= 0; i-- {
+			r = bcat(sc.evalTerm(x.Args[i]), r)
+		}
+		return r
+	case "bconst":
+		sv, ok := sc.eval(x.Args[0]).(StringV)
+		if !ok || sv.Const == nil {
+			sc.errorf(x, "bconst of a non-constant")
+		}
+		return sc.en.constBytes([]byte(*sv.Const))
+	case "bcons":
+		return UF("bcons", SBytes, sc.evalTerm(x.Args[0]), sc.evalTerm(x.Args[1]))
+	case "sha512":
+		return UF("sha512", SArr, sc.evalTerm(x.Args[0]))
+	case "barr":
+		// barr(arr, off, n): the byte sequence arr[off : off+n] of an array term
+		return UF("bsub", SBytes, sc.evalTerm(x.Args[0]), sc.evalTerm(x.Args[1]), sc.evalTerm(x.Args[2]))
+	case "lea":
+		// lea(arr, off, n): little-endian value of n bytes of an array term starting at off
+		arr := sc.evalTerm(x.Args[0])
+		off := sc.evalTerm(x.Args[1])
+		n, ok := sc.evalTerm(x.Args[2]).ConstInt()
+		if !ok {
+			sc.errorf(x, "lea needs a constant length")
+		}
+		var ts []*Term
+		for i := int64(0); i < n; i++ {
+			b := Select(arr, Add(off, ConstI(i)))
+			if b.op == OSelect && !sc.st.typed[b.id] {
+				sc.st.typed[b.id] = true
+				sc.st.assume(Le(ConstI(0), b))
+				sc.st.assume(Le(b, ConstI(255)))
+			}
+			ts = append(ts, MulC(b, pow2(int(8*i))))
+		}
+		return Add(append(ts, ConstI(0))...)
+	case "entropyReads":
+		return ConstI(int64(len(sc.st.entropyReads)))
+	case "entropyRead":
+		k, ok := sc.evalTerm(x.Args[0]).ConstInt()
+		if !ok || int(k) >= len(sc.st.entropyReads) {
+			sc.errorf(x, "no such entropy read")
+		}
+		return sc.st.entropyReads[k]
 	case "fresh":
 		return sc.freshPred(x, sc.eval(x.Args[0]))
 	case "dyntype":
